@@ -21,7 +21,7 @@
   the harness reads back from the real storage, including packed ones, is checked with `invB`), every
   transaction in it, every tid of the undo transaction and every resolver: no bound on sizes.
 -/
-import Proofs.UndoReach
+import Proofs.UndoSteps
 namespace Props.C06
 open ZodbModel ZodbModel.Undo
 
@@ -207,6 +207,26 @@ theorem undo_record_is_verdict (resolve : Resolver) (newer : Log) (T : Txn) (old
     undoRecord resolve S (flat (newer ++ T :: older)) r ((flat older).length + k + 1)
       = verdictPayload r (verdictFor resolve (S ++ flat (newer ++ T :: older)) T older oid) :=
   Proofs.Undo.undoRecord_ctx resolve hInv hp hS h
+
+/-- **steps_compute_undoTxn.**  The step-level operations the correspondence driver executes in lock
+    step with the real storage — `tpc_begin(utid)`, `undo(id)` for each id (stopping at the first
+    UndoError), then `tpc_vote`+`tpc_finish`, or `tpc_abort` after an error — compute exactly `undoTxn`;
+    after an error the abort gives back the very state of before `tpc_begin`. -/
+theorem steps_compute_undoTxn (resolve : Resolver) (fs : FS) (hfs : fs.txn = none) (utid : Nat)
+    (ids : List Nat) :
+    match (fs.tpcBegin utid).undoSeq resolve ids with
+    | (fs', none) => (fs'.finish.log, (none : Option UErr)) = undoTxn resolve fs.log utid ids ∧
+        fs'.finish.txn = none
+    | (fs', some e) => (fs'.abort.log, some e) = undoTxn resolve fs.log utid ids ∧ fs'.abort = fs ∧
+        fs'.finish.log = fs.log :=
+  Proofs.Undo.steps_eq_undoTxn resolve fs hfs utid ids
+
+/-- `load` reads the newest record of the object (the index designates the first record of that oid in
+    the newest-first file), for any file whatsoever: the three states `verdictFor` compares are the
+    states held by the newest record of the object in the three prefixes of the history. -/
+theorem index_is_newest_record (oid : Nat) (F : List Rec) :
+    recAt F (lastPos oid F) = F.find? (fun r => r.oid = oid) :=
+  Proofs.Undo.recAt_lastPos oid F
 
 /-- **reachable_inv.**  Every log reachable from the empty file by ordinary commits and undo
     transactions with growing tids satisfies `Inv`; and `invB` decides `Inv` (used on files read back
